@@ -70,9 +70,21 @@ func copyDir(src, dst string) error {
 // crash: the process dies here. A byte copy of the data directory is taken (what a restarted
 // process would find), the old app object is abandoned, and a new app is opened on the copy.
 func (r *Replica) Crash() {
-	nd, err := os.MkdirTemp("", "verif_replica_")
-	must(err)
-	must(copyDir(r.Dir, nd))
+	// LevelDB compacts in the background and may remove a table file while the copy runs:
+	// retry until one pass sees a stable directory
+	var nd string
+	var err error
+	for attempt := 0; ; attempt++ {
+		nd, err = os.MkdirTemp("", "verif_replica_")
+		must(err)
+		if err = copyDir(r.Dir, nd); err == nil {
+			break
+		}
+		os.RemoveAll(nd)
+		if attempt > 20 {
+			must(err)
+		}
+	}
 	old := r.Dir
 	oldOwn := r.ownDir
 	// abandon the old app (close it only to release file handles; its directory is dropped)
